@@ -385,6 +385,11 @@ type Proxy struct {
 	// self-discovery local_cluster, and lets incremental pushes detect port changes.
 	LocalService LocalServiceInfo
 
+	// PrevServiceTargets is the value of ServiceTargets prior to the most recent SetServiceTargets call. A change of
+	// a service the proxy has just stopped being a target of still concerns it (its inbound configuration for
+	// that service has to go away), although the service is not in ServiceTargets any more.
+	PrevServiceTargets []ServiceTarget
+
 	// PrevLocalService is the value of LocalService prior to the most recent SetServiceTargets call,
 	// used to detect local-service transitions during incremental pushes.
 	PrevLocalService LocalServiceInfo
@@ -633,6 +638,7 @@ func (node *Proxy) SetServiceTargets(serviceDiscovery ServiceDiscovery) {
 	})
 
 	node.PrevLocalService = node.LocalService
+	node.PrevServiceTargets = node.ServiceTargets
 	node.LocalService = LocalServiceInfo{}
 	if len(instances) > 0 {
 		node.LocalService = LocalServiceInfo{
